@@ -1,6 +1,6 @@
 prop("C01", "c01.cpp", PLAIN, PLAIN_ASAN,
      explain="every Unicode scalar value in neighbour contexts and every boundary-alphabet sequence, through every public conversion route and mode, compared unit for unit with an arithmetic reference encoder",
-     bounds={"quick": "all 1,112,064 scalars x 4 contexts (primary routes), B^<=4 over a 17-symbol boundary alphabet (all ~230 routes), all 256^2 Latin-1 pairs, chains over B^<=3; the six transcoding 16-bit wchar_t template variants (explicit template argument) as primary routes; static-initialisation battery; long periodic texts of 2,039..4,104 units (a wide character at offset k of every group of 8, all wide, alternating) from Latin-1 and UTF sources",
+     bounds={"quick": "all 1,112,064 scalars x 4 contexts (primary routes), B^<=4 over a 17-symbol boundary alphabet (all ~230 routes), all 256^2 Latin-1 pairs, chains over B^<=3; the six transcoding 16-bit wchar_t template variants (explicit template argument) as primary routes; static-initialisation battery; long periodic texts of 2,039..4,104 units (a wide character at offset k of every group of 8, all wide, alternating) from Latin-1 and UTF sources; process-exit battery",
              "thorough": "all scalars x 25 contexts, B^<=5 all routes, B^6 primary routes, chains over B^<=4; plain and ASan+UBSan"},
      deadline={"quick": 600, "thorough": 3000})
 
